@@ -239,6 +239,13 @@ func cmdCheck(id, tier string) int {
 				}
 				rf := ReplayFile{Property: id, Harness: res.Cfg.Name, Pkg: res.Cfg.Pkg, Func: res.Cfg.Func, Assert: "", Kind: "witness", Model: smp, Params: res.Cfg.Params}
 				_, out, err := nativeReplay(ld, &rf)
+				// a native run of a concurrent harness settles by waiting (verifapi.Quiesce sleeps): on a loaded
+				// machine it can fail for timing alone, whereas a real mismatch between model and code fails
+				// every time - so a failing witness run is repeated before it is believed
+				for try := 0; try < 2 && err == nil && !strings.Contains(out, "VERIF-ASSUME-VIOLATED") &&
+					(strings.Contains(out, "VERIF-ASSERT-FAILED") || strings.Contains(out, "VERIF-PANIC") || strings.Contains(out, "panic:") || strings.Contains(out, "VERIF-DEADLOCK")); try++ {
+					_, out, err = nativeReplay(ld, &rf)
+				}
 				switch {
 				case err != nil:
 					inconclusive = append(inconclusive, fmt.Sprintf("%s: witness replay could not run: %v", res.Cfg.Name, err))
